@@ -513,7 +513,9 @@ func (p *Program) parseHeader(pk *packages.Package, hdr string, pos string) *Fun
 			for _, d := range f.Decls {
 				if fdl, ok := d.(*ast.FuncDecl); ok && dp.TypesInfo != nil && dp.TypesInfo.Defs[fdl.Name] == obj {
 					fc.Decl = fdl
-					fc.Pkg = dp
+					if dp.PkgPath == pk.PkgPath {
+						fc.Pkg = dp
+					}
 					fc.SrcHash = p.srcHash(fdl)
 				}
 			}
@@ -563,9 +565,6 @@ func exprString(e ast.Expr) string {
 
 // lookupPkgByName finds an imported package of pk (or pk itself) by package name or alias.
 func (p *Program) lookupPkgByName(pk *packages.Package, name string) *types.Package {
-	if pk.Types.Name() == name {
-		return pk.Types
-	}
 	// explicit import aliases in the source files
 	for _, f := range pk.Syntax {
 		for _, im := range f.Imports {
@@ -581,6 +580,9 @@ func (p *Program) lookupPkgByName(pk *packages.Package, name string) *types.Pack
 		if ip.Types != nil && ip.Types.Name() == name {
 			return ip.Types
 		}
+	}
+	if pk.Types.Name() == name {
+		return pk.Types
 	}
 	// any loaded package with that name (deterministic order)
 	var paths []string
